@@ -13,4 +13,10 @@ CHECKS = {
                 note="Trusted: hook placement (CSEnter after sem_wait, SemPost before sem_post), isolated semaphore name.",
                 ref="8/C46"),
 }
+CHECKS["C30"] = dict(level="model_checking", technique="TLC model checking of ProcessManager.tla + trace validation of hook events (incl. replay of the TLC counterexample)",
+    text="TLC explores every ordering of child exit, SIGCHLD delivery to any host thread, handler callbacks, the waiter's waitpid "
+         "and the destructor for 1-3 managers and 3 exit kinds; real executions (main thread, 1-16 threads, perturbed schedules, "
+         "and the deterministic replay of the counterexample of the pinned wait()) are validated against the same specification.",
+    note="Trusted: hook placement, O_APPEND ordering; the child's exit is inferred from the reaping event. The use-after-free "
+         "between treatAction and ~ProcessManager is a recorded known finding (not repaired).", ref="8/C30")
 NOT_APPLICABLE = {}
